@@ -29,7 +29,14 @@ Inductive qq_outcome :=
 | QQ_exit (code : nat)               (* reads everything, exits with a non-zero code *)
 | QQ_die_write                       (* dies before the envelope was written completely: the envelope write or waitpid shows it *)
 | QQ_die_early                       (* is dead before the first data line is written: that write fails with EPIPE *)
-| QQ_signal.                         (* reads everything, killed by a signal *)
+| QQ_signal                          (* reads everything, killed by a signal *)
+| QQ_nostart                         (* queue_init() fails: pipe() or fork() failed, or the child was already gone when queue_init() looked
+                                        (waitpid(WNOHANG): exec of $QMAILQUEUE failed - _exit(120) - or the program died at once):
+                                        "451 4.3.2 can not connect to queue", no 354 *)
+| QQ_die_hdr.                        (* the child was still there when queue_init() looked and is gone before the Received: header is
+                                        written: write_received() fails with EPIPE, err_write at once *)
+Definition qq_nostart (q : qq_outcome) : bool := match q with QQ_nostart => true | _ => false end.
+Definition qq_die_hdr (q : qq_outcome) : bool := match q with QQ_die_hdr => true | _ => false end.
 (** smtp_auth on the text behind "AUTH ": the mechanism table, base64 decoding and the backend (checkpassword) are the oracle *)
 Inductive auth_result :=
 | Auth_ok (name : bytes)             (* mechanism handler returned 0: "235", xmitstat.authname = name (not empty) *)
@@ -520,6 +527,9 @@ Definition h_from (o : oracles) (s : sstate) (arg : bytes) (linelen : nat) : lis
   end
   end.
 
+(** what linein holds when smtp_data starts: the command line (any line that is not the lone dot would do) *)
+Definition s_data_line : bytes := [68; 65; 84; 65]%N.
+
 Definition h_data (fuel : nat) (o : oracles) (s : sstate) : list event * hres * sstate :=
   if Nat.eqb (goodrcpt s) 0 then ([Reply 554], HEDONE, tarpit s)
   else
@@ -531,6 +541,14 @@ Definition h_data (fuel : nat) (o : oracles) (s : sstate) : list event * hres * 
         let s := {| rd := rd s; comstate := comstate s; esmtp := esmtp s; helostr := helostr s; mailfrom := mailfrom s;
                     rcpts := rcpts s; rcptcount := rcptcount s; goodrcpt := goodrcpt s; badcmds := badcmds s;
                     relayclient := relayclient s; thisbytes := thisbytes s; qcount := S k; check2822 := check2822 s; datatype := datatype s; authname := authname s; tlsclient := tlsclient s; ssl_verified := ssl_verified s |} in
+        (* queue_init(): no reply yet, nothing of the transaction is touched; the client may try DATA again *)
+        if qq_nostart (o_qq o k) then ([Reply 451], HEDONE, s)
+        else if qq_die_hdr (o_qq o k) then
+          (* 354, write_received() fails: err_write with the DATA command line still in linein *)
+          let '(alive, _, r2) := drain_break fuel (rd s) s_data_line in
+          if negb alive then ([Note (NData k); Reply 354], HEXIT, set_rd s r2)
+          else ([Note (NData k); Reply 354; Note NBoundary; Reply 451], HEDONE, freedata (set_rd s r2))
+        else
         let first := match rcpts s with (a, _) :: _ => a | [] => [] end in
         let trace := o_trace o (authname s) (tlsclient s) (helostr s) (mailfrom s) (esmtp s) first (relayclient s) in
         let dc := {| d_wfail := match o_qq o k with QQ_die_early => true | _ => false end;
@@ -553,7 +571,7 @@ Definition h_data (fuel : nat) (o : oracles) (s : sstate) : list event * hres * 
                 if Nat.leb QQ_PERM_LO c && Nat.leb c QQ_PERM_HI then ([Note (NData k); Reply 354; Note NBoundary; Reply 554], HEDONE, sf)
                 else ([Note (NData k); Reply 354; Note NBoundary; Reply 451], HEDONE, sf)
             | QQ_signal => ([Note (NData k); Reply 354; Note NBoundary; Reply 451], HEDONE, sf)
-            | QQ_die_write | QQ_die_early => ([Note (NData k); Reply 354; Note NBoundary; Reply 451], HEDONE, sf)
+            | QQ_die_write | QQ_die_early | QQ_nostart | QQ_die_hdr => ([Note (NData k); Reply 354; Note NBoundary; Reply 451], HEDONE, sf)
             end
         | D_wfail l =>
             (* err_write: the transaction is dropped, the rest of the data is read up to the dot or to the first read error, 451 *)
